@@ -267,3 +267,49 @@ def impl_patient(c, lines):
             outs[i] = o
         c.dist['slow-case-reasked'] = c.dist.get('slow-case-reasked', 0) + len(slow)
     return outs
+
+
+# ---------------------------------------------------------------------------
+# history independence: what a statement evaluates to must not depend on what the same
+# Context evaluated (or on which custom units it was given) BEFORE in another order
+
+def run_history(c, base_ctx, steps):
+    """steps: ('e', text) | ('d', sing, plur, definition, attr) -> [(kind, text)] for the 'e' steps"""
+    line = sx([Sym('history'), base_ctx] + [[s[0]] + list(s[1:]) for s in steps])
+    return line
+
+def decode_hist(o):
+    p = try_parse(o)
+    if isinstance(p, list) and all(isinstance(x, list) and len(x) == 2 for x in p):
+        return [(x[0].decode(), x[1].decode('utf-8', 'replace')) for x in p]
+    return None
+
+def history_check(c, histories, label):
+    """histories: list of step lists.  Every 'e' step is also evaluated on a FRESH context that was
+    given exactly the custom units defined so far (in definition order); the answers must agree."""
+    lines = [run_history(c, CTX_DEFAULT, h) for h in histories]
+    outs = impl_patient(c, lines)
+    fresh_lines, index = [], []
+    for hi, h in enumerate(histories):
+        customs = []
+        k = 0
+        for st in h:
+            if st[0] == 'd':
+                customs.append([st[1], st[2], st[3], st[4]])
+            else:
+                fresh_lines.append(sx([Sym('eval'), [0, 1, list(customs)], st[1]]))
+                index.append((hi, k, st[1], list(customs)))
+                k += 1
+    fresh = impl_patient(c, fresh_lines)
+    got = [decode_hist(o) for o in outs]
+    nbad = 0
+    for (hi, k, text, customs), fo in zip(index, fresh):
+        c.note_case('%s:%d:%d:%s' % (label, hi, k, text), True, label)
+        f = decode_hist(fo)
+        g = got[hi]
+        a = g[k] if g is not None and k < len(g) else ('crash', outs[hi][:200])
+        b = f[0] if f else ('crash', fo[:200])
+        if a != b and nbad < 15:
+            nbad += 1
+            c.violation(label + '-depends-on-history', {'kind': 'impl-vs-spec', 'history': [list(s) for s in histories[hi]], 'step': k, 'input': text,
+                                                          'customs_defined_so_far': customs, 'on_used_context': a, 'on_fresh_context': b})
